@@ -140,11 +140,16 @@ def run(run: common.Run):
     for (case, src, ref, s, r, sv, rv, proc_ref, off) in prepared:
         # (the model evaluates every kernel fit of every eroded window in exact rationals, without memoisation: ~3 s per
         #  image, so only the smaller images and a bounded number per run go through it)
-        if proc_ref and src.h * src.w <= 500 and len(pm_lines) < (5 if run.quick() else 40):
+        n_ref = sum(1 for v in pm_lines.values() if v.startswith('pmask '))
+        n_src = len(pm_lines) - n_ref
+        cap = 2 if run.quick() else 15
+        if src.h * src.w <= 400 and ((proc_ref and n_ref < cap) or (not proc_ref and src.px > ref.px and n_src < cap)):
             st = [str(int(v)) if m else '_' for v, m in zip(s[0].ravel(), sv.ravel())]
             rt = [str(int(v)) if m else '_' for v, m in zip(r[0].ravel(), rv.ravel())]
-            pm_lines[case['i']] = 'pmask %s %d %d nearest 1 0 %d %d %d %d %d %d %d %d %d %d %d %d S %s R %s' % (
-                case['model'], case['kernel'][0], case['kernel'][1], *src.row_axis, *src.col_axis, *ref.row_axis, *ref.col_axis,
+            # source-grid processing with the source the coarser image: the reference reaches the source grid by `average`
+            pm_lines[case['i']] = '%s %s %d %d %s 1 0 %d %d %d %d %d %d %d %d %d %d %d %d S %s R %s' % (
+                'pmask' if proc_ref else 'pmasksrc', case['model'], case['kernel'][0], case['kernel'][1],
+                'nearest' if proc_ref else 'average', *src.row_axis, *src.col_axis, *ref.row_axis, *ref.col_axis,
                 ' '.join(st), ' '.join(rt))
     if pm_lines:
         keys = list(pm_lines)
@@ -199,7 +204,7 @@ def run(run: common.Run):
             if whole is not None and not np.array_equal(cm, whole) and not (hv and tie_geometry(src, ref)):
                 d = np.argwhere(cm != whole)
                 run.disagree(sub, pm_line[:160], f'valid={bool(whole[tuple(d[0])])} at {d[0].tolist()}', f'valid={bool(cm[tuple(d[0])])}',
-                             what=f'whole-image partial-mask model differs from the corrected mask at {len(d)} pixels')
+                             what=f'whole-image partial-mask model ({"reference" if proc_ref else "source"} grid) differs from the corrected mask at {len(d)} pixels')
             if not np.array_equal(cm, expect):
                 d = np.argwhere(cm != expect)
                 rr, cc = d[0]
